@@ -1289,6 +1289,11 @@ class BaseInterpreter(Generic[TContext, TEvent]):
         #    be invalidated by an earlier one in the same macrostep (its source
         #    is no longer active), so re-check liveness before executing.
         for transition in transitions:
+            # 🏁 An earlier transition of this macrostep may have completed
+            #    the machine (top-level final state) or failed / stopped it:
+            #    a finished machine runs nothing further.
+            if self.status not in ("running", "uninitialized"):
+                break
             if (
                 len(transitions) > 1
                 and transition.source not in self._active_state_nodes
